@@ -34,7 +34,7 @@ class Orbit(StateVector):
         return obj
 
     def __str__(self):
-        return str(self.base)
+        return str(np.asarray(self))
 
     def __repr__(self):  # pragma: no cover
         coord_str = "\n".join(
@@ -150,4 +150,4 @@ Orbit =
     def as_statevector(self):
         new_dict = self._data.copy()
         new_dict.pop("propagator")
-        return StateVector(self.base, **new_dict)
+        return StateVector(np.asarray(self), **new_dict)
